@@ -9,6 +9,7 @@ import CookModel.Lemmas.RecipeSimStatic
 import CookModel.Lemmas.RecipeSimBlank
 import CookModel.Lemmas.TrailInst
 import CookModel.Lemmas.AuditC17
+import CookModel.Lemmas.TableFacts
 /-
   C17  Line endings, comments and blank space do not change the recipe.
 
@@ -1140,5 +1141,353 @@ example : SameRecipe (α := Rat) (fun c => c = ' ')
         simp only [TextModeFree]
         exact ⟨fun h => (by cases h.1), trivial⟩))
 -- ===== end w4audit17 =====
+/-! ### the character table of the real lexer
+
+    Everything above holds for every `CharSpec` with the stated side conditions.  Below, the side conditions are
+    PROVED for `realCharSpec`, the table `harness chartable` generates from the real lexer on every check
+    (`Gen/CharTable.lean`, a Lean literal; facts in `Lemmas/TableFacts.lean`), and the theorems are restated for
+    that table with the side conditions discharged.  If a lexer class changes so that a side condition fails,
+    these theorems stop building and the check reports a broken obligation. -/
+
+/-- CR and LF are neither lexer whitespace nor word characters in the table generated from the real lexer -/
+theorem C17_crlfSpec_real : CrlfSpec realCharSpec := ⟨tbl_ws_cr, tbl_ws_lf, tbl_word_cr, tbl_word_lf⟩
+
+/-- CR and LF are `char::is_whitespace` in the generated table -/
+theorem C17_uwsNL_real : UwsNL realCharSpec := ⟨tbl_uws_cr, tbl_uws_lf⟩
+
+/-- in the generated table the blank is lexer whitespace and no word character; `-` and `[` are no lexer whitespace -/
+theorem C17_trailSpec_real : TrailSpec realCharSpec := ⟨tbl_ws_sp, tbl_ws_minus, tbl_ws_lbrack, tbl_word_sp⟩
+
+/-! non-vacuity at the real table: an environment with that table exists (the driver's `realEnv` is one; see
+    `Props/Tables.lean`) -/
+example : ({ C17_toyEnv with cs := realCharSpec } : Env).cs = realCharSpec := rfl
+
+/-- `C17_trailing_space_before_newline` at the character table generated from the real lexer:
+    the side condition `uws ' ' = true` is proved for that table (`Lemmas/TableFacts.lean`), not assumed -/
+theorem C17_trailing_space_before_newline_real (off off' : Nat) (xs ys : List Tok) (w nl : Tok) (hw : w.kind = .ws)
+    (hS : ∀ c ∈ w.text, c = ' ') (hn : nl.kind = .newline) (hne : nl.text ≠ []) :
+    (buildText off' (xs ++ [w, nl] ++ ys)).trimmed realCharSpec = (buildText off (xs ++ [nl] ++ ys)).trimmed realCharSpec :=
+  C17_trailing_space_before_newline (cs := realCharSpec) (hsp := tbl_uws_sp) off off' xs ys w nl hw hS hn hne
+
+/-- `C17_text_trimmed_collapses` at the character table generated from the real lexer (`ws` := its `char::is_whitespace` class):
+    the side condition `uws ' ' = true` is proved for that table (`Lemmas/TableFacts.lean`), not assumed -/
+theorem C17_text_trimmed_collapses_real (A S B : List Char) (hS : ∀ c ∈ S, c = ' ') :
+    trimmedOf realCharSpec.uws (A ++ S ++ ' ' :: B) = trimmedOf realCharSpec.uws (A ++ ' ' :: B) :=
+  C17_text_trimmed_collapses (ws := realCharSpec.uws) (hsp := tbl_uws_sp) A S B hS
+
+/-- `C17_crlf` at the character table generated from the real lexer:
+    the side condition `CrlfSpec` is proved for that table (`Lemmas/TableFacts.lean`), not assumed -/
+theorem C17_crlf_real (s : List Char) (hs : CrlfSafe s) :
+    (lex realCharSpec (crlf s)).map tokAbs = (lex realCharSpec s).map tokAbs :=
+  C17_crlf (cs := realCharSpec) (hcs := C17_crlfSpec_real) s hs
+
+/-- `C17_crlf_at_offset` at the character table generated from the real lexer:
+    the side condition `CrlfSpec` is proved for that table (`Lemmas/TableFacts.lean`), not assumed -/
+theorem C17_crlf_at_offset_real (s : List Char) (hs : CrlfSafe s) (off off' : Nat) :
+    (lexFrom realCharSpec off' (crlf s)).map tokAbs = (lexFrom realCharSpec off s).map tokAbs :=
+  C17_crlf_at_offset (cs := realCharSpec) (hcs := C17_crlfSpec_real) s hs off off'
+
+/-- `C17_crlf_texts` at the character table generated from the real lexer:
+    the side condition `CrlfSpec` is proved for that table (`Lemmas/TableFacts.lean`), not assumed -/
+theorem C17_crlf_texts_real (s : List Char) (hs : CrlfSafe s) (off off' : Nat) :
+    CrlfToks (lexFrom realCharSpec off' (crlf s)) (lexFrom realCharSpec off s) :=
+  C17_crlf_texts (cs := realCharSpec) (hcs := C17_crlfSpec_real) s hs off off'
+
+/-- `C17_crlf_visible_text` at the character table generated from the real lexer:
+    the side condition `CrlfSpec` is proved for that table (`Lemmas/TableFacts.lean`), not assumed -/
+theorem C17_crlf_visible_text_real (s : List Char) (hs : CrlfSafe s) (i j off off' : Nat) :
+    (((lex realCharSpec (crlf s)).drop i).take j).flatMap vis = (((lex realCharSpec s).drop i).take j).flatMap vis ∧
+    (buildText off' (((lex realCharSpec (crlf s)).drop i).take j)).text =
+      (buildText off (((lex realCharSpec s).drop i).take j)).text :=
+  C17_crlf_visible_text (cs := realCharSpec) (hcs := C17_crlfSpec_real) s hs i j off off'
+
+/-- `C17_crlf_blocks` at the character table generated from the real lexer:
+    the side condition `CrlfSpec` is proved for that table (`Lemmas/TableFacts.lean`), not assumed -/
+theorem C17_crlf_blocks_real (s : List Char) (hs : CrlfSafe s) (off off' : Nat) :
+    LRel (LRel CrlfTok)
+      (allBlocks ((lexFrom realCharSpec off' (crlf s)).length + 1) (lexFrom realCharSpec off' (crlf s)))
+      (allBlocks ((lexFrom realCharSpec off s).length + 1) (lexFrom realCharSpec off s)) :=
+  C17_crlf_blocks (cs := realCharSpec) (hcs := C17_crlfSpec_real) s hs off off'
+
+/-- `C17_crlf_blocks_abs` at the character table generated from the real lexer:
+    the side condition `CrlfSpec` is proved for that table (`Lemmas/TableFacts.lean`), not assumed -/
+theorem C17_crlf_blocks_abs_real (s : List Char) (hs : CrlfSafe s) (off off' : Nat) :
+    (allBlocks ((lexFrom realCharSpec off' (crlf s)).length + 1) (lexFrom realCharSpec off' (crlf s))).map (·.map tokAbs) =
+    (allBlocks ((lexFrom realCharSpec off s).length + 1) (lexFrom realCharSpec off s)).map (·.map tokAbs) :=
+  C17_crlf_blocks_abs (cs := realCharSpec) (hcs := C17_crlfSpec_real) s hs off off'
+
+/-- `C17_crlf_events_partial` at the character table generated from the real lexer:
+    the side conditions `CrlfSpec`, `UwsNL` are proved for that table (`Lemmas/TableFacts.lean`), not assumed -/
+theorem C17_crlf_events_partial_real {α : Type} [Arith α] (ext : Ext) (oldStyle : Bool) (s : List Char)
+    (hs : CrlfSafe s) (off off' : Nat) (hnm : NoMarker (lexFrom realCharSpec off s))
+    (acc' acc : Array (Ev α) × Option String) (he : LRel (EvSim realCharSpec.uws) acc'.1.toList acc.1.toList) :
+    LRel (EvSim realCharSpec.uws)
+      ((allBlocks ((lexFrom realCharSpec off' (crlf s)).length + 1) (lexFrom realCharSpec off' (crlf s))).foldl
+        (fun a b => runBlock realCharSpec ext oldStyle b a.1 a.2) acc').1.toList
+      ((allBlocks ((lexFrom realCharSpec off s).length + 1) (lexFrom realCharSpec off s)).foldl
+        (fun a b => runBlock realCharSpec ext oldStyle b a.1 a.2) acc).1.toList :=
+  C17_crlf_events_partial (cs := realCharSpec) (hcs := C17_crlfSpec_real) (hu := C17_uwsNL_real) ext oldStyle s hs off off' hnm acc' acc he
+
+/-- `C17_crlf_pull_events_partial` at the character table generated from the real lexer:
+    the side conditions `CrlfSpec`, `UwsNL` are proved for that table (`Lemmas/TableFacts.lean`), not assumed -/
+theorem C17_crlf_pull_events_partial_real {α : Type} [Arith α] (ext : Ext) (s : List Char) (hs : CrlfSafe s)
+    (hnm : NoMarker (lex realCharSpec s)) (h1 : parseFrontmatter realCharSpec s = none)
+    (h2 : parseFrontmatter realCharSpec (crlf s) = none) :
+    LRel (EvSim realCharSpec.uws) (pullEvents (α := α) realCharSpec ext (crlf s)).1.toList (pullEvents (α := α) realCharSpec ext s).1.toList :=
+  C17_crlf_pull_events_partial (cs := realCharSpec) (hcs := C17_crlfSpec_real) (hu := C17_uwsNL_real) ext s hs hnm h1 h2
+
+/-- `C17_block_parser_offset_blind_partial` at the character table generated from the real lexer:
+    the side condition `UwsNL` is proved for that table (`Lemmas/TableFacts.lean`), not assumed -/
+theorem C17_block_parser_offset_blind_partial_real {α : Type} [Arith α] (b' b : List Tok) (hb : LRel TokSim b' b)
+    (hnm : NoMarker b) (ext : Ext) (oldStyle : Bool) (evs' evs : Array (Ev α))
+    (he : LRel (EvSim realCharSpec.uws) evs'.toList evs.toList) (p' p : Option String) :
+    LRel (EvSim realCharSpec.uws) (runBlock realCharSpec ext oldStyle b' evs' p').1.toList (runBlock realCharSpec ext oldStyle b evs p).1.toList :=
+  C17_block_parser_offset_blind_partial (cs := realCharSpec) (hu := C17_uwsNL_real) b' b hb hnm ext oldStyle evs' evs he p' p
+
+/-- `C17_crlf_events` at the character table generated from the real lexer:
+    the side conditions `CrlfSpec`, `UwsNL` are proved for that table (`Lemmas/TableFacts.lean`), not assumed -/
+theorem C17_crlf_events_real {α : Type} [Arith α] (ext : Ext) (oldStyle : Bool) (s : List Char) (hs : CrlfSafe s)
+    (off off' : Nat) (acc' acc : Array (Ev α) × Option String)
+    (he : LRel (EvSim realCharSpec.uws) acc'.1.toList acc.1.toList) :
+    LRel (EvSim realCharSpec.uws)
+      ((allBlocks ((lexFrom realCharSpec off' (crlf s)).length + 1) (lexFrom realCharSpec off' (crlf s))).foldl
+        (fun a b => runBlock realCharSpec ext oldStyle b a.1 a.2) acc').1.toList
+      ((allBlocks ((lexFrom realCharSpec off s).length + 1) (lexFrom realCharSpec off s)).foldl
+        (fun a b => runBlock realCharSpec ext oldStyle b a.1 a.2) acc).1.toList :=
+  C17_crlf_events (cs := realCharSpec) (hcs := C17_crlfSpec_real) (hu := C17_uwsNL_real) ext oldStyle s hs off off' acc' acc he
+
+/-- `C17_crlf_frontmatter` at the character table generated from the real lexer:
+    the side condition `UwsNL` is proved for that table (`Lemmas/TableFacts.lean`), not assumed -/
+theorem C17_crlf_frontmatter_real (s : List Char) :
+    OptRel FmCrlf (parseFrontmatter realCharSpec (crlf s)) (parseFrontmatter realCharSpec s) :=
+  C17_crlf_frontmatter (cs := realCharSpec) (hu := C17_uwsNL_real) s
+
+/-- `C17_crlf_frontmatter_iff` at the character table generated from the real lexer:
+    the side condition `UwsNL` is proved for that table (`Lemmas/TableFacts.lean`), not assumed -/
+theorem C17_crlf_frontmatter_iff_real (s : List Char) :
+    (parseFrontmatter realCharSpec (crlf s)).isSome = (parseFrontmatter realCharSpec s).isSome :=
+  C17_crlf_frontmatter_iff (cs := realCharSpec) (hu := C17_uwsNL_real) s
+
+/-- `C17_crlf_frontmatter_texts` at the character table generated from the real lexer:
+    the side condition `UwsNL` is proved for that table (`Lemmas/TableFacts.lean`), not assumed -/
+theorem C17_crlf_frontmatter_texts_real (s : List Char) (fm : FrontMatter)
+    (h : parseFrontmatter realCharSpec s = some fm) :
+    ∃ fm', parseFrontmatter realCharSpec (crlf s) = some fm' ∧ fm'.yamlText = crlf fm.yamlText ∧
+      fm'.cookText = crlf fm.cookText :=
+  C17_crlf_frontmatter_texts (cs := realCharSpec) (hu := C17_uwsNL_real) s fm h
+
+/-- `C17_crlf_pull_events` at the character table generated from the real lexer:
+    the side conditions `CrlfSpec`, `UwsNL` are proved for that table (`Lemmas/TableFacts.lean`), not assumed -/
+theorem C17_crlf_pull_events_real {α : Type} [Arith α] (ext : Ext) (s : List Char) (hs : CrlfSafe s) :
+    LRel (EvSim realCharSpec.uws) (pullEvents (α := α) realCharSpec ext (crlf s)).1.toList (pullEvents (α := α) realCharSpec ext s).1.toList :=
+  C17_crlf_pull_events (cs := realCharSpec) (hcs := C17_crlfSpec_real) (hu := C17_uwsNL_real) ext s hs
+
+/-- `C17_block_parser_offset_blind` at the character table generated from the real lexer:
+    the side condition `UwsNL` is proved for that table (`Lemmas/TableFacts.lean`), not assumed -/
+theorem C17_block_parser_offset_blind_real {α : Type} [Arith α] (b' b : List Tok) (hb : LRel TokSim b' b) (ext : Ext)
+    (oldStyle : Bool) (evs' evs : Array (Ev α)) (he : LRel (EvSim realCharSpec.uws) evs'.toList evs.toList)
+    (p' p : Option String) :
+    LRel (EvSim realCharSpec.uws) (runBlock realCharSpec ext oldStyle b' evs' p').1.toList (runBlock realCharSpec ext oldStyle b evs p).1.toList :=
+  C17_block_parser_offset_blind (cs := realCharSpec) (hu := C17_uwsNL_real) b' b hb ext oldStyle evs' evs he p' p
+
+/-- `C17_parse_quantity_offset_blind` at the character table generated from the real lexer:
+    the side condition `UwsNL` is proved for that table (`Lemmas/TableFacts.lean`), not assumed -/
+theorem C17_parse_quantity_offset_blind_real {α : Type} [Arith α] (ts' ts q' q : List Tok) (hq : LRel TokSim q' q) :
+    Rel (α := α) realCharSpec ts' ts (parseQuantity q') (parseQuantity q) (ParsedQSim realCharSpec.uws) :=
+  C17_parse_quantity_offset_blind (cs := realCharSpec) (hu := C17_uwsNL_real) ts' ts q' q hq
+
+/-- `C17_extra_blank_lines_events` at the character table generated from the real lexer:
+    the side condition `UwsNL` is proved for that table (`Lemmas/TableFacts.lean`), not assumed -/
+theorem C17_extra_blank_lines_events_real {α : Type} [Arith α] (ext : Ext) (oldStyle : Bool) (L : List (List Tok))
+    (hL : ∀ l ∈ L, IsLine l) (E0 E X : List Tok) (hE0 : EmptyLine E0) (hE : EmptyLine E) (Y : List Tok)
+    (hY : LRel TokSim (L.flatten ++ (E0 ++ X)) Y) (acc' acc : Array (Ev α) × Option String)
+    (he : LRel (EvSim realCharSpec.uws) acc'.1.toList acc.1.toList) :
+    LRel (EvSim realCharSpec.uws)
+      ((blocksOf (L.flatten ++ (E0 ++ (E ++ X)))).foldl (fun a b => runBlock realCharSpec ext oldStyle b a.1 a.2) acc').1.toList
+      ((blocksOf Y).foldl (fun a b => runBlock realCharSpec ext oldStyle b a.1 a.2) acc).1.toList :=
+  C17_extra_blank_lines_events (cs := realCharSpec) (hu := C17_uwsNL_real) ext oldStyle L hL E0 E X hE0 hE Y hY acc' acc he
+
+/-- `C17_crlf_recipe_partial` at the character table generated from the real lexer (any environment whose
+    table is that one, as the driver's `realEnv`):
+    the side conditions `CrlfSpec`, `UwsNL` are proved for that table (`Lemmas/TableFacts.lean`), not assumed -/
+theorem C17_crlf_recipe_partial_real {α : Type} [Arith α] (env : Env) (hreal : env.cs = realCharSpec) (s : List Char)
+    (hs : CrlfSafe s) (hf : TextModeFree env s (pullEvents (α := α) env.cs env.ext s).1.toList {}) :
+    ResSim env.cs.uws (parseRecipe (α := α) env (crlf s)) (parseRecipe (α := α) env s) :=
+  C17_crlf_recipe_partial env (hcs := hreal ▸ C17_crlfSpec_real) (hu := hreal ▸ C17_uwsNL_real) s hs hf
+
+/-- `C17_crlf_recipe_modes_off` at the character table generated from the real lexer (any environment whose
+    table is that one, as the driver's `realEnv`):
+    the side conditions `CrlfSpec`, `UwsNL` are proved for that table (`Lemmas/TableFacts.lean`), not assumed -/
+theorem C17_crlf_recipe_modes_off_real {α : Type} [Arith α] (env : Env) (hreal : env.cs = realCharSpec)
+    (hm : env.ext.has Gen.EXT_MODES = false) (s : List Char) (hs : CrlfSafe s) :
+    ResSim env.cs.uws (parseRecipe (α := α) env (crlf s)) (parseRecipe (α := α) env s) :=
+  C17_crlf_recipe_modes_off env (hcs := hreal ▸ C17_crlfSpec_real) (hu := hreal ▸ C17_uwsNL_real) hm s hs
+
+/-- `C17_crlf_recipe_valid_modes_off` at the character table generated from the real lexer (any environment whose
+    table is that one, as the driver's `realEnv`):
+    the side conditions `CrlfSpec`, `UwsNL` are proved for that table (`Lemmas/TableFacts.lean`), not assumed -/
+theorem C17_crlf_recipe_valid_modes_off_real {α : Type} [Arith α] (env : Env) (hreal : env.cs = realCharSpec)
+    (hm : env.ext.has Gen.EXT_MODES = false) (s : List Char) (hs : CrlfSafe s) :
+    (parseRecipe (α := α) env (crlf s)).output.isSome = (parseRecipe (α := α) env s).output.isSome ∧
+    ∀ c' c, (parseRecipe (α := α) env (crlf s)).output = some c' → (parseRecipe (α := α) env s).output = some c →
+      c'.sections = c.sections ∧ c'.ingredients = c.ingredients ∧ c'.cookware = c.cookware ∧
+      c'.timers = c.timers ∧ c'.inlineQ = c.inlineQ ∧ c'.metaMap = c.metaMap :=
+  C17_crlf_recipe_valid_modes_off env (hcs := hreal ▸ C17_crlfSpec_real) (hu := hreal ▸ C17_uwsNL_real) hm s hs
+
+/-- `C17_extra_blank_lines_recipe_partial` at the character table generated from the real lexer (any environment whose
+    table is that one, as the driver's `realEnv`):
+    the side condition `UwsNL` is proved for that table (`Lemmas/TableFacts.lean`), not assumed -/
+theorem C17_extra_blank_lines_recipe_partial_real {α : Type} [Arith α] (env : Env) (hreal : env.cs = realCharSpec)
+    (oldStyle : Bool) (input' input : Str) (L : List (List Tok)) (hL : ∀ l ∈ L, IsLine l) (E0 E X : List Tok)
+    (hE0 : EmptyLine E0) (hE : EmptyLine E) (Y : List Tok) (hY : LRel TokSim (L.flatten ++ (E0 ++ X)) Y)
+    (acc' acc : Array (Ev α) × Option String) (he : LRel (EvSim env.cs.uws) acc'.1.toList acc.1.toList)
+    (hf : TextModeFree env input ((blocksOf Y).foldl (fun a b => runBlock env.cs env.ext oldStyle b a.1 a.2) acc).1.toList {}) :
+    ResSim env.cs.uws
+      (parseEvents env input'
+        ((blocksOf (L.flatten ++ (E0 ++ (E ++ X)))).foldl (fun a b => runBlock env.cs env.ext oldStyle b a.1 a.2) acc').1.toList)
+      (parseEvents env input
+        ((blocksOf Y).foldl (fun a b => runBlock env.cs env.ext oldStyle b a.1 a.2) acc).1.toList) :=
+  C17_extra_blank_lines_recipe_partial env (hu := hreal ▸ C17_uwsNL_real) oldStyle input' input L hL E0 E X hE0 hE Y hY acc' acc he hf
+
+/-- `C17_extra_blank_line_source_events` at the character table generated from the real lexer:
+    the side condition `UwsNL` is proved for that table (`Lemmas/TableFacts.lean`), not assumed -/
+theorem C17_extra_blank_line_source_events_real {α : Type} [Arith α] (ext : Ext) (u e0 e x : List Char)
+    (L : List (List Tok)) (hlu : lex realCharSpec u = L.flatten) (hL : ∀ l ∈ L, IsLine l)
+    (hE0 : EmptyLine (lexFrom realCharSpec (utf8Len u) e0))
+    (hE : EmptyLine (lexFrom realCharSpec (utf8Len u + utf8Len e0) e))
+    (h1 : parseFrontmatter realCharSpec (u ++ (e0 ++ (e ++ x))) = none)
+    (h2 : parseFrontmatter realCharSpec (u ++ (e0 ++ x)) = none) :
+    LRel (EvSim realCharSpec.uws) (pullEvents (α := α) realCharSpec ext (u ++ (e0 ++ (e ++ x)))).1.toList
+      (pullEvents (α := α) realCharSpec ext (u ++ (e0 ++ x))).1.toList :=
+  C17_extra_blank_line_source_events (cs := realCharSpec) (hu := C17_uwsNL_real) ext u e0 e x L hlu hL hE0 hE h1 h2
+
+/-- `C17_extra_blank_line_source_recipe_partial` at the character table generated from the real lexer (any environment whose
+    table is that one, as the driver's `realEnv`):
+    the side condition `UwsNL` is proved for that table (`Lemmas/TableFacts.lean`), not assumed -/
+theorem C17_extra_blank_line_source_recipe_partial_real {α : Type} [Arith α] (env : Env)
+    (hreal : env.cs = realCharSpec) (u e0 e x : List Char) (L : List (List Tok)) (hlu : lex env.cs u = L.flatten)
+    (hL : ∀ l ∈ L, IsLine l) (hE0 : EmptyLine (lexFrom env.cs (utf8Len u) e0))
+    (hE : EmptyLine (lexFrom env.cs (utf8Len u + utf8Len e0) e))
+    (h1 : parseFrontmatter env.cs (u ++ (e0 ++ (e ++ x))) = none)
+    (h2 : parseFrontmatter env.cs (u ++ (e0 ++ x)) = none)
+    (hf : TextModeFree env (u ++ (e0 ++ x)) (pullEvents (α := α) env.cs env.ext (u ++ (e0 ++ x))).1.toList {}) :
+    ResSim env.cs.uws (parseRecipe (α := α) env (u ++ (e0 ++ (e ++ x)))) (parseRecipe (α := α) env (u ++ (e0 ++ x))) :=
+  C17_extra_blank_line_source_recipe_partial env (hu := hreal ▸ C17_uwsNL_real) u e0 e x L hlu hL hE0 hE h1 h2 hf
+
+/-- `C17_extra_blank_line_source_recipe_modes_off` at the character table generated from the real lexer (any environment whose
+    table is that one, as the driver's `realEnv`):
+    the side condition `UwsNL` is proved for that table (`Lemmas/TableFacts.lean`), not assumed -/
+theorem C17_extra_blank_line_source_recipe_modes_off_real {α : Type} [Arith α] (env : Env)
+    (hreal : env.cs = realCharSpec) (hm : env.ext.has Gen.EXT_MODES = false) (u e0 e x : List Char)
+    (L : List (List Tok)) (hlu : lex env.cs u = L.flatten) (hL : ∀ l ∈ L, IsLine l)
+    (hE0 : EmptyLine (lexFrom env.cs (utf8Len u) e0)) (hE : EmptyLine (lexFrom env.cs (utf8Len u + utf8Len e0) e))
+    (h1 : parseFrontmatter env.cs (u ++ (e0 ++ (e ++ x))) = none)
+    (h2 : parseFrontmatter env.cs (u ++ (e0 ++ x)) = none) :
+    ResSim env.cs.uws (parseRecipe (α := α) env (u ++ (e0 ++ (e ++ x)))) (parseRecipe (α := α) env (u ++ (e0 ++ x))) :=
+  C17_extra_blank_line_source_recipe_modes_off env (hu := hreal ▸ C17_uwsNL_real) hm u e0 e x L hlu hL hE0 hE h1 h2
+
+/-- `C17_clean_line_end` at the character table generated from the real lexer:
+    the side condition `wordChar ' ' = false` is proved for that table (`Lemmas/TableFacts.lean`), not assumed -/
+theorem C17_clean_line_end_real (o : Nat) (a : List Char) (h : CleanEnd (lexFrom realCharSpec o a)) :
+    EndOK realCharSpec (some ' ') (lexFrom realCharSpec o a) :=
+  C17_clean_line_end (cs := realCharSpec) (hw := tbl_word_sp) o a h
+
+/-- `C17_trailing_comment_tokens` at the character table generated from the real lexer:
+    the side condition `TrailSpec` is proved for that table (`Lemmas/TableFacts.lean`), not assumed -/
+theorem C17_trailing_comment_tokens_real (o : Nat) (a sp c v : List Char) (hne : sp ≠ []) (hsp : ∀ x ∈ sp, x = ' ')
+    (hc : '\n' ∉ c) (hv : v.head? = none ∨ v.head? = some '\n')
+    (hend : EndOK realCharSpec (some ' ') (lexFrom realCharSpec o a)) :
+    lexFrom realCharSpec o (a ++ (sp ++ ('-' :: '-' :: c ++ v))) =
+      lexFrom realCharSpec o a ++ (⟨.ws, sp, o + utf8Len a⟩ :: ⟨.lineComment, '-' :: '-' :: c, o + utf8Len a + utf8Len sp⟩ ::
+        lexFrom realCharSpec (o + utf8Len a + utf8Len sp + utf8Len ('-' :: '-' :: c)) v) :=
+  C17_trailing_comment_tokens (cs := realCharSpec) (hs := C17_trailSpec_real) o a sp c v hne hsp hc hv hend
+
+/-- `C17_trailing_spaces_tokens` at the character table generated from the real lexer:
+    the side condition `TrailSpec` is proved for that table (`Lemmas/TableFacts.lean`), not assumed -/
+theorem C17_trailing_spaces_tokens_real (o : Nat) (a sp v : List Char) (hne : sp ≠ []) (hsp : ∀ x ∈ sp, x = ' ')
+    (hv : v.head?.any realCharSpec.ws = false) (hend : EndOK realCharSpec (some ' ') (lexFrom realCharSpec o a)) :
+    lexFrom realCharSpec o (a ++ (sp ++ v)) =
+      lexFrom realCharSpec o a ++ (⟨.ws, sp, o + utf8Len a⟩ :: lexFrom realCharSpec (o + utf8Len a + utf8Len sp) v) :=
+  C17_trailing_spaces_tokens (cs := realCharSpec) (hs := C17_trailSpec_real) o a sp v hne hsp hv hend
+
+/-- `C17_trailing_spaces_tokens_widen` at the character table generated from the real lexer:
+    the side condition `TrailSpec` is proved for that table (`Lemmas/TableFacts.lean`), not assumed -/
+theorem C17_trailing_spaces_tokens_widen_real (o : Nat) (a sp v : List Char) (hne : sp ≠ []) (hsp : ∀ x ∈ sp, x = ' ')
+    (hv : v.head?.any realCharSpec.ws = false) (T : List Tok) (w : Tok) (hT : lexFrom realCharSpec o a = T ++ [w])
+    (hw : w.kind = .ws) :
+    lexFrom realCharSpec o (a ++ (sp ++ v)) =
+      T ++ (⟨.ws, w.text ++ sp, w.start⟩ :: lexFrom realCharSpec (o + utf8Len a + utf8Len sp) v) :=
+  C17_trailing_spaces_tokens_widen (cs := realCharSpec) (hs := C17_trailSpec_real) o a sp v hne hsp hv T w hT hw
+
+/-- `C17_block_comment_tokens` at the character table generated from the real lexer:
+    the side condition `TrailSpec` is proved for that table (`Lemmas/TableFacts.lean`), not assumed -/
+theorem C17_block_comment_tokens_real (o : Nat) (a body b : List Char) (h1 : blockScan body = body.length)
+    (h2 : ['-', ']'] <:+ body) (hb : b.head?.any realCharSpec.ws = false)
+    (hend : EndOK realCharSpec (some ' ') (lexFrom realCharSpec o a)) :
+    lexFrom realCharSpec o (a ++ (' ' :: b)) =
+      lexFrom realCharSpec o a ++ (⟨.ws, [' '], o + utf8Len a⟩ :: lexFrom realCharSpec (o + utf8Len a + 1) b) ∧
+    lexFrom realCharSpec o (a ++ (' ' :: ('[' :: '-' :: body ++ ' ' :: b))) =
+      lexFrom realCharSpec o a ++ (⟨.ws, [' '], o + utf8Len a⟩ :: ⟨.blockComment, '[' :: '-' :: body, o + utf8Len a + 1⟩ ::
+        ⟨.ws, [' '], o + utf8Len a + 1 + utf8Len ('[' :: '-' :: body)⟩ ::
+        lexFrom realCharSpec (o + utf8Len a + 1 + utf8Len ('[' :: '-' :: body) + 1) b) :=
+  C17_block_comment_tokens (cs := realCharSpec) (hs := C17_trailSpec_real) o a body b h1 h2 hb hend
+
+/-- `C17_trailing_comment_blocks` at the character table generated from the real lexer:
+    the side condition `TrailSpec` is proved for that table (`Lemmas/TableFacts.lean`), not assumed -/
+theorem C17_trailing_comment_blocks_real (u a sp c x : List Char) (L : List (List Tok))
+    (hu : lex realCharSpec u = L.flatten) (hL : ∀ l ∈ L, IsLine l) (hne : sp ≠ []) (hsp : ∀ y ∈ sp, y = ' ')
+    (hc : '\n' ∉ c) (ha : a ≠ []) (hnl : ∀ t ∈ lexFrom realCharSpec (utf8Len u) a, (t.kind != .newline) = true)
+    (hend : EndOK realCharSpec (some ' ') (lexFrom realCharSpec (utf8Len u) a))
+    (hend' : EndOK realCharSpec (some '\n') (lexFrom realCharSpec (utf8Len u) a)) :
+    ∃ F nl, F = [⟨.ws, sp, utf8Len u + utf8Len a⟩, ⟨.lineComment, '-' :: '-' :: c, utf8Len u + utf8Len a + utf8Len sp⟩] ∧
+      nl = (⟨.newline, ['\n'], utf8Len u + utf8Len a⟩ : Tok) ∧
+      LRel (fun b' b => ∃ m, LRel SameKT b' m ∧ InsB (lexFrom realCharSpec (utf8Len u) a) F [nl] m b)
+        (blocksOf (lex realCharSpec (u ++ (a ++ (sp ++ ('-' :: '-' :: c ++ '\n' :: x))))))
+        (blocksOf (lex realCharSpec (u ++ (a ++ '\n' :: x)))) :=
+  C17_trailing_comment_blocks (cs := realCharSpec) (hs := C17_trailSpec_real) u a sp c x L hu hL hne hsp hc ha hnl hend hend'
+
+/-- `C17_trailing_is_insertion` at the character table generated from the real lexer (`ws` := its `char::is_whitespace` class):
+    the side condition `uws ' ' = true` is proved for that table (`Lemmas/TableFacts.lean`), not assumed -/
+theorem C17_trailing_is_insertion_real (S1 S2 : List SegX) (l1 F l2 : List Tok) (hF : IsFiller F)
+    (hb : ∀ t ∈ F, t.kind = .ws → ∀ c ∈ t.text, c = ' ')
+    (hl2 : l2 = [] ∨ ∃ nl r, l2 = nl :: r ∧ nl.kind = .newline ∧ nl.text ≠ [])
+    (hS2 : ∀ s, S2.head? = some s → s.isText = false) :
+    SegsIns realCharSpec.uws (S1 ++ .text (l1 ++ F ++ l2) :: S2) (S1 ++ .text (l1 ++ l2) :: S2) :=
+  C17_trailing_is_insertion (ws := realCharSpec.uws) (hsp := tbl_uws_sp) S1 S2 l1 F l2 hF hb hl2 hS2
+
+/-- `C17_trailing_after_component_is_insertion` at the character table generated from the real lexer (`ws` := its `char::is_whitespace` class):
+    the side condition `uws ' ' = true` is proved for that table (`Lemmas/TableFacts.lean`), not assumed -/
+theorem C17_trailing_after_component_is_insertion_real (S1 S2 : List SegX) (F : List Tok) (hF : IsFiller F)
+    (hb : ∀ t ∈ F, t.kind = .ws → ∀ c ∈ t.text, c = ' ') (hS2 : ∀ s, S2.head? = some s → s.isText = false) :
+    SegsIns realCharSpec.uws (S1 ++ .text F :: S2) (S1 ++ S2) :=
+  C17_trailing_after_component_is_insertion (ws := realCharSpec.uws) (hsp := tbl_uws_sp) S1 S2 F hF hb hS2
+
+/-- `C17_block_comment_is_insertion` at the character table generated from the real lexer (`ws` := its `char::is_whitespace` class):
+    the side condition `uws ' ' = true` is proved for that table (`Lemmas/TableFacts.lean`), not assumed -/
+theorem C17_block_comment_is_insertion_real (S1 S2 : List SegX) (l1 : List Tok) (w : Tok) (F l2 : List Tok)
+    (hw : w.kind = .ws) (hwt : w.text ≠ []) (hwb : ∀ c ∈ w.text, c = ' ') (hF : IsFiller F)
+    (hb : ∀ t ∈ F, t.kind = .ws → ∀ c ∈ t.text, c = ' ') (hS2 : ∀ s, S2.head? = some s → s.isText = false) :
+    SegsIns realCharSpec.uws (S1 ++ .text ((l1 ++ [w]) ++ F ++ l2) :: S2) (S1 ++ .text ((l1 ++ [w]) ++ l2) :: S2) :=
+  C17_block_comment_is_insertion (ws := realCharSpec.uws) (hsp := tbl_uws_sp) S1 S2 l1 w F l2 hw hwt hwb hF hb hS2
+
+/-- `C17_trailing_spaces_blocks` at the character table generated from the real lexer:
+    the side conditions `TrailSpec`, `ws '\n' = false` are proved for that table (`Lemmas/TableFacts.lean`), not assumed -/
+theorem C17_trailing_spaces_blocks_real (u a sp x : List Char) (L : List (List Tok))
+    (hu : lex realCharSpec u = L.flatten) (hL : ∀ l ∈ L, IsLine l) (hne : sp ≠ []) (hsp : ∀ y ∈ sp, y = ' ')
+    (ha : a ≠ []) (hnl : ∀ t ∈ lexFrom realCharSpec (utf8Len u) a, (t.kind != .newline) = true)
+    (hend : EndOK realCharSpec (some ' ') (lexFrom realCharSpec (utf8Len u) a))
+    (hend' : EndOK realCharSpec (some '\n') (lexFrom realCharSpec (utf8Len u) a)) :
+    ∃ F nl, F = [(⟨.ws, sp, utf8Len u + utf8Len a⟩ : Tok)] ∧
+      nl = (⟨.newline, ['\n'], utf8Len u + utf8Len a⟩ : Tok) ∧
+      LRel (fun b' b => ∃ m, LRel SameKT b' m ∧ InsB (lexFrom realCharSpec (utf8Len u) a) F [nl] m b)
+        (blocksOf (lex realCharSpec (u ++ (a ++ (sp ++ '\n' :: x)))))
+        (blocksOf (lex realCharSpec (u ++ (a ++ '\n' :: x)))) :=
+  C17_trailing_spaces_blocks (cs := realCharSpec) (hs := C17_trailSpec_real) (hlf := tbl_ws_lf) u a sp x L hu hL hne hsp ha hnl hend hend'
+
+/-- `C17_clean_line_end_lf` at the character table generated from the real lexer:
+    the side condition `CrlfSpec` is proved for that table (`Lemmas/TableFacts.lean`), not assumed -/
+theorem C17_clean_line_end_lf_real (o : Nat) (a : List Char) (h : CleanEndLF (lexFrom realCharSpec o a)) :
+    EndOK realCharSpec (some '\n') (lexFrom realCharSpec o a) :=
+  C17_clean_line_end_lf (cs := realCharSpec) (hcs := C17_crlfSpec_real) o a h
 
 end Cook
